@@ -16,6 +16,8 @@ def iterator_roles(fx, rep, rule, impl):
     if not p:
         return None, None
     rep.fn(p)
+    import parser_rules as PR_
+    PR_.check_iterator_overrides(fx, rep, rule, impl + "::RemappedFrameIter", impl + "::RemappedFrameIter")
     sy = S.Sym(fx)
     try:
         res = sy.eval_body(fx.bodies[p])
@@ -43,6 +45,57 @@ def iterator_roles(fx, rep, rule, impl):
               found="parameters.is_none() -> %s; else -> %s" % (wl, wo),
               expected="next(): None when exhausted/empty; line-based iteration iff frame.parameters is None")
     return (wl, wo) if good else (None, None)
+
+
+def _through_query(n):
+    """does the place expression `n` go through a `&mut StackFrame` (the query stored in the frame iterator)?"""
+    n = F.strip(n)
+    while True:
+        ty = n.get("ty", "")
+        if ty.startswith("&mut ") and "StackFrame" in ty and "Option" not in ty and "(" not in ty:
+            return True
+        k = n.get("k")
+        if k in ("Field", "Deref", "Index"):
+            n = F.strip(n["e"])
+            continue
+        return False
+
+
+def check_query_readonly(fx, rep, rule, impl, paths, key_prefix):
+    """the frame iterator keeps the caller's query (`&mut StackFrame` inside RemappedFrameIter) for its whole life: every
+    yielded entry is computed from the same query, so nothing may assign to it or hand it out mutably. Checked over the
+    iterator's `next` and every local function it reaches with the query."""
+    todo, seen, bad, n_fn = list(paths), set(), [], 0
+    while todo:
+        q = todo.pop()
+        if q in seen or q not in fx.bodies:
+            continue
+        seen.add(q)
+        b = fx.bodies[q]
+        n_fn += 1
+        for n in F.walk(b["body"]):
+            k = n.get("k")
+            if k in ("Assign", "AssignOp") and _through_query(n["l"]):
+                bad.append((n, "assignment to the stored query"))
+            if k == "Call" and "fn" in n:
+                tgt = fx.by_dp.get(n["fn"].get("dp"))
+                for a in n["args"]:
+                    a0 = F.strip(a)
+                    aty = a0.get("ty", "")
+                    passes = aty.startswith("&mut ") and "StackFrame" in aty and "Option" not in aty and "(" not in aty
+                    inner = a0.get("k") == "Borrow" and a0.get("mut") and _through_query(a0["e"])
+                    if passes or inner:
+                        if tgt and tgt in fx.bodies and fx.bodies[tgt]["krate"] == "proguard":
+                            todo.append(tgt)
+                        elif not n["fn"]["path"].startswith(("core::", "std::", "alloc::")) or inner or \
+                                n["fn"]["path"].split("::")[-1] in ("swap", "replace", "take", "clone_from", "write"):
+                            bad.append((n, "query handed mutably to %s" % n["fn"]["path"]))
+    for n, what in bad[:4]:
+        rep.violation(rule, "%s/query-readonly/%s/%s" % (key_prefix, impl, F.pp(n)[:50]), loc=F.loc(n), found=what,
+                      expected="the query frame stored in the iterator is only read: every entry of one remap_frame call is computed from the same class, line, file and parameters")
+    if not bad:
+        rep.ok(rule, "%s/query-readonly/%s" % (key_prefix, impl), found="%d function(s) reached with the stored query; none assigns to it or hands it out mutably" % n_fn)
+    return n_fn
 
 
 def check_with_lines(fx, rep, rule, impl, path, key_prefix):
